@@ -202,7 +202,10 @@ def class_cases(draw) -> t.Any:
     fields = draw(st.lists(names.filter(lambda ws: not keyword.iskeyword('_'.join(ws)) and '_'.join(ws) not in ('cls', 'self')), min_size=1, max_size=4,
                           unique_by=lambda ws: '_'.join(ws)))
     style = draw(st.sampled_from(STYLES))
-    mode = draw(st.sampled_from(['rename', 'in_out', 'dict']))
+    mode = draw(st.sampled_from(['rename', 'in_out', 'dict', 'in_many']))
+    if mode == 'in_many':
+        # several input styles at once: every field is reachable under its canonical name in each of them
+        return [fields, draw(st.lists(st.sampled_from(STYLES), min_size=2, max_size=4, unique=True)), mode]
     return [fields, style, mode]
 
 
@@ -213,8 +216,27 @@ def check_class(case: t.Any, ctx: Ctx) -> None:
     import pane
     (fields, style, mode) = case
     fnames = ['_'.join(ws) for ws in fields]
-    ctx.label(f"class:{mode}:{style}")
+    ctx.label(f"class:{mode}:{style if isinstance(style, str) else 'several'}")
     ctx.nontrivial(any(len(ws) >= 2 for ws in fields))
+    if mode == 'in_many':
+        styles = list(style)
+        cls = type('RenMany', (pane.PaneBase,), {'__annotations__': {n: int for n in fnames}}, in_rename=tuple(styles))
+        _KEEP.append(cls)
+        inst = cls(**{n: i for (i, n) in enumerate(fnames)})
+        for st_ in styles:
+            ctx.evaluated()
+            data = {canon(ws, st_): i for (i, ws) in enumerate(fields)}
+            if len(data) != len(fields):
+                continue
+            try:
+                back = cls.from_data(data)
+            except pane.ConvertError as e:
+                ctx.fail('observed', 'in_rename-several', f"class with in_rename={styles} and fields {fnames}: the {st_} names {data!r} are refused: {str(e)[:200]}")
+                return
+            if back != inst:
+                ctx.fail('observed', 'in_rename-several', f"class with in_rename={styles} and fields {fnames}: {data!r} read as {back!r}")
+                return
+        return
     opts: t.Dict[str, t.Any] = {}
     if mode == 'rename':
         opts = {'rename': style}
